@@ -1187,6 +1187,10 @@ def inexact_steps(node, is_source, min_bits=None, extra_calls=()):
             stk.extend(x[1])
         elif k == "call" and (x[6] in _PRESERVING_CALLS or x[6] in extra_calls) and x[3]:
             stk.append(x[3][0])
+        elif k == "agg" and x[1] == "adt" and str(x[2]).endswith(("Result::Ok", "Option::Some", "ControlFlow::Continue", "Poll::Ready")) and x[3]:
+            stk.append(x[3][0][1])          # a success wrapper built around the value (an expanded map / map_err / `?`)
+        elif k == "agg" and x[1] == "adt" and str(x[2]).endswith(("Result::Err", "Option::None", "ControlFlow::Break", "Poll::Pending")):
+            continue                        # the failure alternative of such a wrapper carries no value of the success path
         elif k in ("param", "const", "constx", "agg", "cycle"):
             if k != "param":
                 out.append(fmt(x)[:80])
